@@ -128,8 +128,8 @@ example : Combo.BOk (.op .OR (.one (str "Cac") (str "A(a) I((b [AND] c))")) (.on
 
 /-! ### Under which component type a nested statement is attached
 
-`parseNestedStatements` / `parseNestedStatementCombination` hand the text in front of the opening
-brace to `extractComponentType` (modelled in `Model/Header.lean`, tied by the `ctype` stream through
+`parseNestedStatementCombination` hands the text in front of the opening brace — of the combination
+and of each of its operands — to `extractComponentType` (modelled in `Model/Header.lean`, tied by the `ctype` stream through
 the hook `VerifExtractComponentType`). -/
 
 /-- (T) the table the model walks is `tree.IGComponentSymbols` as it stands in the source now -/
@@ -141,16 +141,16 @@ theorem nestable_symbols_covered :
     Sym.nestables.all (fun s => Header.roots.contains s.name ||
       Header.propRoots.any (fun r => s.name == r ++ Header.marker)) = true := by decide
 
-/-- **a nested component whose header is a component symbol with any suffix and any annotation
-    (`Cac{`, `Bdir1{`, `Cex12[ctx=time]{`) is attached under exactly that component type, and is
-    not taken for a property** — for every symbol of the table, every digit string, every annotation -/
+/-- **an operand (or the header) of a combination of nested statements that is written as a component
+    symbol with any suffix and any annotation (`Cac{`, `Bdir1{`, `Cex12[ctx=time]{`) is attached under
+    exactly that component type, and is not taken for a property** — for every symbol of the table, every digit string, every annotation -/
 theorem nested_header_type (r : Str) (hr : r ∈ Header.roots) (d anno : Str) (hd : ∀ c ∈ d, c.isDigit = true)
     (ha : anno = [] ∨ ∃ t, anno = '[' :: t) :
     Header.extractType (Gen.componentSymbols.map String.toList) (r ++ d ++ anno) = .ok r false := by
   rw [component_symbol_table]; exact Header.header_type_plain r hr d anno hd ha
 
-/-- **a nested property (`A,p{`, `Bdir1,p{`, `Bdir1,p2[k=v]{`, `P,p3{`) is attached as the property
-    variant of its component**, whatever the primary and secondary suffixes and the annotation are;
+/-- **an operand or header written as a property (`A,p{`, `Bdir1,p{`, `Bdir1,p2[k=v]{`, `P,p3{`) is
+    attached as the property variant of its component**, whatever the primary and secondary suffixes and the annotation are;
     the annotation may itself contain symbols or the property marker (it is cut before the search) -/
 theorem nested_property_header_type (r : Str) (hr : r ∈ Header.propRoots) (d1 d2 anno : Str)
     (hd1 : ∀ c ∈ d1, c.isDigit = true) (hd2 : ∀ c ∈ d2, c.isDigit = true) (ha : anno = [] ∨ ∃ t, anno = '[' :: t) :
